@@ -54,6 +54,12 @@ func checkC13(p *Prog, r *Report) {
 	rulePropErr(p, r)
 	ruleWsSet(p, r)
 	ruleNarrowX(p, r)
+	ruleSignX(p, r)
+	ruleEqRefl(p, r)
+	ruleXBuf(p, r)
+	r.Floor("XBUF", 1)
+	r.Floor("EQREFL", 1)
+	r.Floor("SIGNX", 1)
 	r.Floor("NARROWX", 3)
 	r.Floor("WSSET", 1)
 	r.Floor("PROPERR", 1)
